@@ -46,11 +46,11 @@ def push_node(chk, F, rule, cfg):
         others = [e.data[1] for e in p.calls() if not re.search(r'(OnceCell::try_insert|Deref>?::deref|Box.*as_ref|AsRef>?::as_ref)$', e.data[1])]
         r = strip(p.outcome[1])
         # &*(try_insert(..) as Ok).0
-        inner = r
-        if inner[0] == 'ref' and inner[1][0][0] == 'ptr':
-            inner = strip(inner[1][0][1])
-        ok_ret = bool(ins) and inner[0] == 'field' and inner[2] == '0' and strip(inner[1])[0] == 'as' and strip(inner[1])[2] == 'Ok' and strip(strip(inner[1])[1])[0] == 'call' and \
-            strip(strip(inner[1])[1])[3] == ins[-1].data[3] and strip(strip(inner[1])[1])[1] == ins[-1].data[1]
+        # (possibly seen through the Box the node lives in: `&**ok.0`)
+        last = ('call', ins[-1].data[1], ins[-1].data[2], ins[-1].data[3]) if ins else None
+        ok_ret = bool(ins) and mentions(r, lambda x: x[0] == 'field' and x[2] == '0' and strip(x[1])[0] == 'as' and strip(x[1])[2] == 'Ok' and strip(strip(x[1])[1]) == last) and \
+            not any(x[0] == 'call' and x != last for x in symex.subvalues(r) if x[0] == 'call' and not mentions(last, lambda y: y == x)) and \
+            not any(x[0] == 'field' and x[2] not in ('0', 'pointer') for x in symex.subvalues(r) if x[0] == 'field' and not mentions(last, lambda y: y == x))
         chk.ob(rule, 'the reference returned is the one try_insert handed back (Ok arm) for the last insertion attempt', ok_ret and not others, config=cfg, fn=fn, site='return',
                what='push_node returns %s' % show(r)[:100], found={'returns': show(r)[:200], 'other_calls': others}, expected='&*(cell.try_insert(node) as Ok).0')
         # node argument chain: arg2, then payload .1 of the previous Err
@@ -68,17 +68,20 @@ def push_node(chk, F, rule, cfg):
             chk.ob(rule, 'attempt %d inserts this call\'s node into %s' % (i + 1, 'the root cell' if i == 0 else 'the `next` cell of the occupying node'), okn and okc, config=cfg, fn=fn, site='attempt%d' % (i + 1),
                    what='attempt %d node=%s cell=%s' % (i + 1, okn, okc), found={'cell': show(cell)[:160], 'node': show(node)[:160]})
             prev = e
-    pv = F.fn('value_chain::ValueChain::push_value')
-    for p in symex.Interp(F).run(pv):
-        r = strip(p.outcome[1])
-        ok = field_path(r)[1][-1:] == ['value'] and mentions(r, lambda x: is_call(x, r'ValueChain::push_node$') and is_call(strip(x[2][1]), r'Node::new$') and strip(strip(x[2][1])[2][0]) == ('param', 0, 2))
-        chk.ob(rule, 'push_value returns &node.value of the node it pushed', ok, config=cfg, fn=pv, site='push_value', what='push_value returns %s' % show(r)[:100], found=show(r)[:200])
+    # push / push_fragile as a whole (the private steps between them and push_node are part of them): what is handed out is the
+    # downcast of the `.value` of exactly the node push_node returned for a node built from this call's value
+    vc_inline = lambda f_, d_, n_: f_.defp.startswith('value_chain::') and f_.kind in ('fn', 'assoc') and not re.search(r'push_node$|Node::new$|Value::downcast_(ref|mut)$', f_.defp)  # noqa: E731
     for name in ('push',) + (('push_fragile',) if cfg == 'mocks' else ()):
         f = F.method('value_chain::ValueChain', name)
-        for p in symex.Interp(F).run(f):
+        for p in symex.Interp(F, inline=vc_inline).run(f):
             r = p.outcome[1] if p.outcome[0] == 'return' else ('unk', '')
-            ok = mentions(r, lambda x: is_call(x, r'Value::downcast_ref$')) and mentions(r, lambda x: is_call(x, r'ValueChain::push_value$') and mentions(x, lambda y: y == ('param', 0, 2)))
-            chk.ob(rule, '%s returns the downcast of the value it just pushed' % name, ok, config=cfg, fn=f, site=name, what='%s returns %s' % (name, show(r)[:100]), found=show(r)[:200])
+            pn = [x for x in symex.subvalues(r) if is_call(x, r'ValueChain::push_node$')]
+            ok = len(set(x[3] for x in pn)) == 1 and mentions(r, lambda x: is_call(x, r'Value::downcast_ref$'))
+            if ok:
+                x = pn[0]
+                ok = mentions(x[2][0], lambda y: y == ('param', 0, 1)) and mentions(x[2][1], lambda y: is_call(y, r'Node::new$') and mentions(y, lambda z: z == ('param', 0, 2)))
+                ok = ok and mentions(r, lambda y: (y[0] == 'field' and y[2] == 'value') or (y[0] == 'ref' and any(e == ('f', 'value') for e in y[1][1])))
+            chk.ob(rule, '%s returns the downcast of the `.value` of the node push_node handed back for this call\'s value' % name, ok, config=cfg, fn=f, site=name, what='%s returns %s' % (name, show(r)[:100]), found=show(r)[:200])
     mr = F.method('Unimock', 'make_ref')
     for p in symex.Interp(F).run(mr):
         r = strip(p.outcome[1])
@@ -115,7 +118,7 @@ def chain_writers(chk, F, rule, cfg):
     chk.floor(rule, 'OnceCell operations on the value chain', n, 3, config=cfg)
     # writers of Unimock.value_chain
     users = L.attributed(F, L.field_accesses(F, 'Unimock', 'value_chain'))
-    allow = {'Unimock::from_assembler', '<Unimock as core::clone::Clone>::clone', 'teardown::teardown', 'Unimock::make_ref', 'Unimock::make_mut', 'Unimock::make_fragile_ref', 'Unimock::make_fragile_mut'}
+    allow = {'Unimock::from_assembler', 'Unimock::new', 'Unimock::new_partial', '<Unimock as core::clone::Clone>::clone', 'teardown::teardown', 'Unimock::make_ref', 'Unimock::make_mut', 'Unimock::make_fragile_ref', 'Unimock::make_fragile_mut'}
     chk.ob(rule, 'the instance\'s chain is only touched by constructors, make_ref/make_mut and teardown', set(users) <= allow, config=cfg, site='field:value_chain', what='users of Unimock.value_chain %s' % sorted(set(users) - allow), found=users)
     mm = F.method('Unimock', 'make_mut')
     chk.ob(rule, 'make_mut (which releases earlier values) needs exclusive access', mm.locals[1]['ty'].startswith('&mut'), config=cfg, fn=mm, site='make_mut', what='make_mut receiver %s' % mm.locals[1]['ty'], found=mm.locals[1]['ty'])
@@ -178,7 +181,9 @@ def chain_teardown(chk, F, rule, cfg):
             if i == 0:
                 ok = ok and field_path(recv) == (('param', 0, 1), ['root'])
             else:
-                ok = ok and prev is not None and mentions(recv, lambda x: x[0] == 'call' and x[3] == prev.data[3] and x[1] == prev.data[1]) and 'next' in field_path(recv)[1]
+                # (the cell may have been moved into a local first: `let mut cell = node.next; cell.take()` - then the snapshot says where it came from)
+                src = recv[3] if recv[0] == 'ref' and recv[1][0][0] == 'local' and len(recv) > 3 else recv
+                ok = ok and prev is not None and mentions(recv, lambda x: x[0] == 'call' and x[3] == prev.data[3] and x[1] == prev.data[1]) and 'next' in field_path(src)[1]
             prev = e
         chk.ob(rule, 'the chain destructor takes the root, then the `next` cell of each node it took', ok, config=cfg, fn=fn, site='chain-drop:order', what='chain destructor take order',
                found=[show(e.data[2][0])[:80] for e in ops])
@@ -203,7 +208,7 @@ def lent_boxes(chk, F, rule, cfg):
     for adt, field in (('output::lending::Lent', '0'), ('output::static_ref::Reference', '0')):
         writes = [(b.defp, k) for b, _, k, _ in L.field_accesses(F, adt, field) if k in ('write', 'construct')]
         ok = all(re.search(r'into_return(_once)?$', d) and k == 'construct' for d, k in writes)
-        chk.ob(rule, '%s is written only when the response is configured' % adt, ok and len(writes) >= 2, config=cfg, site='field:%s' % adt, what='writers of %s: %s' % (adt, writes), found=writes)
+        chk.ob(rule, '%s is written only when the response is configured' % adt, ok and len(writes) >= 1, config=cfg, site='field:%s' % adt, what='writers of %s: %s' % (adt, writes), found=writes)
     for fn in F.methods_named('output', 'output::GetOutput'):
         if not fn.locals[1]['ty'].startswith('&') or fn.locals[1]['ty'].startswith('&mut'):
             chk.ob(rule, 'GetOutput::output only borrows the stored response', False, config=cfg, fn=fn, site='output-recv', what='output receiver %s' % fn.locals[1]['ty'])
